@@ -309,9 +309,21 @@ func c10Verdict(filter string, ty c10Typing) (verdict string) {
 type c10NopListener struct{ zitiql.BaseZitiQlListener }
 
 // c10LexerHeard: does zitiql.Parse report what the lexer could not tokenize (probed once on "x#")
-var c10LexerHeard = sync.OnceValue(func() bool { return len(zitiql.Parse("x#", &c10NopListener{})) > 0 })
+var c10LexerHeard = sync.OnceValue(func() (heard bool) {
+	defer func() {
+		if r := recover(); r != nil {
+			heard = true
+		}
+	}()
+	return len(zitiql.Parse("x#", &c10NopListener{})) > 0
+})
 
-func c10Pooled(filter string) string {
+func c10Pooled(filter string) (res string) {
+	defer func() {
+		if r := recover(); r != nil {
+			res = "pP:" + c10Site()
+		}
+	}()
 	pooled := len(zitiql.Parse(filter, &c10NopListener{})) > 0
 	lexer := zitiql.NewZitiQlLexer(antlr.NewInputStream(filter))
 	lexer.RemoveErrorListeners()
